@@ -147,14 +147,14 @@ __CPROVER_ensures((CMD_OF(context)->callback == NULL && PLEX(context)->len > 0) 
  * (a query responds and succeeds, a command stays silent) - the other shapes are known findings */
 #ifndef KF_C06_SHAPES
 #define WB_CALL(c) (CMD_OF(c)->callback != NULL && WELL_BEHAVED(c))
-__CPROVER_ensures(WB_CALL(context) ==> context->first_output == (OLD(context->first_output) && !(gh_h_items > 0)))
+__CPROVER_ensures(WB_CALL(context) ==> (context->first_output != 0) == (OLD(context->first_output) != 0 && !(gh_h_items > 0)))
 __CPROVER_ensures((WB_CALL(context) && gh_h_items == 0) ==> gh_out_len == OLD(gh_out_len))
 __CPROVER_ensures((WB_CALL(context) && gh_h_items > 0 && !OLD(context->first_output)) ==> (gh_out_len >= OLD(gh_out_len) + 2 && (gh_watch == OLD(gh_out_len) ==> gh_watch_val == ';')))
 __CPROVER_ensures((WB_CALL(context) && gh_h_items > 0 && OLD(context->first_output)) ==> gh_out_len >= OLD(gh_out_len) + 1)
 #else
 /* confirmation form: the same clause without the restriction to well-behaved handlers */
 __CPROVER_ensures(CMD_OF(context)->callback != NULL ==>
-    (context->first_output == (OLD(context->first_output) && !(gh_h_items > 0)) && ((gh_h_items == 0) ==> gh_out_len == OLD(gh_out_len))))
+    ((context->first_output != 0) == (OLD(context->first_output) != 0 && !(gh_h_items > 0)) && ((gh_h_items == 0) ==> gh_out_len == OLD(gh_out_len))))
 #endif
 ;
 
